@@ -1,7 +1,8 @@
 --------------------------- MODULE PipelineTrace ---------------------------
 (* Trace validation: executions of the real pipeline (harness `vdrive       *)
 (* pipeline`) must be behaviours of Pipeline.  Many traces are concatenated; *)
-(* a Reset event carries the stage tree, async flags and outcomes.           *)
+(* a Reset event carries the stage tree, async flags, plan outcomes and the   *)
+(* plan tree of every stage (children and operator of every plan node).      *)
 EXTENDS Pipeline, Json
 
 Trace == ndJsonDeserialize("trace.ndjson")
@@ -18,7 +19,7 @@ EmptyTree == [x \in {} |-> << >>]
 
 TraceInit ==
   /\ l = 1
-  /\ InitWith(EmptyTree, "none", EmptyTree, EmptyTree)
+  /\ InitWith(EmptyTree, "none", EmptyTree, EmptyTree, [kids |-> EmptyTree, out |-> EmptyTree, root |-> EmptyTree])
 
 TReset ==
   /\ Ev("Reset")
@@ -29,11 +30,14 @@ TReset ==
   /\ pending' = 0 /\ registered' = {} /\ done' = {}
   /\ completed' = FALSE /\ cbCount' = 0 /\ cbErr' = FALSE
   /\ errSeen' = FALSE /\ anyErr' = FALSE
+  /\ pkids' = Line.pkids /\ pout' = Line.pout /\ proot' = Line.proot
+  /\ opLog' = [s \in DOMAIN Line.children |-> << >>] /\ failedSt' = {} /\ lateOp' = FALSE
 
 TRegister == Ev("Register") /\ \E t \in Thread : Has(t, "reg") /\ Top(t).s = Line.s /\ Register(t)
-TExec     == Ev("Exec") /\ Line.outcome # "planpanic" /\ \E t \in Thread : Has(t, "exec") /\ Top(t).s = Line.s
-                                             /\ outcome[Line.s] = Line.outcome /\ Exec(t)
-TPlanPanic == Ev("Exec") /\ Line.outcome = "planpanic" /\ \E t \in Thread : Has(t, "plan") /\ Top(t).s = Line.s
+\* an operator of the plan tree of stage s ran: it must be the next one of the walk (pre-order, nothing after a failure)
+TOp       == Ev("Op") /\ Line.outcome # "none" /\ \E t \in Thread : Has(t, "op") /\ Top(t).s = Line.s /\ Top(t).n = Line.node
+                                             /\ pout[Line.node] = Line.outcome /\ OpRun(t)
+TPlanPanic == Ev("PlanPanic") /\ \E t \in Thread : Has(t, "plan") /\ Top(t).s = Line.s
                                              /\ outcome[Line.s] = "planpanic" /\ Plan(t)
 TFinMark  == Ev("FinMark") /\ \E t \in Thread : Has(t, "fin") /\ Top(t).s = Line.s /\ FinMark(t)
 TCallback == /\ Ev("Callback")
@@ -41,7 +45,8 @@ TCallback == /\ Ev("Callback")
                 \/ MainComplete
              /\ cbCount' = cbCount + 1
              /\ cbErr' = Line.err
-TFinEnd   == Ev("FinEnd") /\ \E t \in Thread : Has(t, "end") /\ Top(t).s = Line.s /\ FinEnd(t)
+\* one of the two handlers passed to stage.Execute returned (the harness wraps them)
+TFinEnd   == Ev("FinEnd") /\ \E t \in Thread : Has(t, "end") /\ Top(t).s = Line.s /\ ~Top(t).q /\ FinEnd(t)
 \* Pipeline.Execute returned on the caller's goroutine
 TMainRet  == Ev("MainReturn") /\ stacks["main"] = << >> /\ UNCHANGED vars
 \* the harness saw every goroutine finish: the model must agree, and exactly one callback
@@ -50,13 +55,15 @@ TQuiesce  == Ev("Quiesce") /\ Quiescent /\ cbCount = 1 /\ Line.calls = 1 /\ UNCH
 \* steps the harness cannot observe
 Silent == /\ l <= Len(Trace)
           /\ \/ \E t \in Thread : Chk(t) \/ Next1(t) \/ (Plan(t) /\ outcome[Top(t).s] # "planpanic") \/ (FinDec(t) /\ cbCount' = cbCount)
+                                   \* the walk of the plan tree between two operators; plan nodes without operator
+                                   \/ Kids(t) \/ (OpRun(t) /\ pout[Top(t).n] = "none")
                                    \* a stage completed by executeStage's recover does not pass
-                                   \* through the harness' wrapped handler: no FinEnd event
-                                   \/ (FinEnd(t) /\ outcome[Top(t).s] \in {"panic", "planpanic"})
+                                   \* through the harness' wrapped handlers: no FinEnd event
+                                   \/ (FinEnd(t) /\ Top(t).q)
              \/ (MainComplete /\ cbCount' = cbCount)
           /\ UNCHANGED l
 
-TraceNext == TReset \/ TRegister \/ TExec \/ TPlanPanic \/ TFinMark \/ TCallback \/ TFinEnd \/ TMainRet \/ TQuiesce \/ Silent
+TraceNext == TReset \/ TRegister \/ TOp \/ TPlanPanic \/ TFinMark \/ TCallback \/ TFinEnd \/ TMainRet \/ TQuiesce \/ Silent
 
 TraceSpec == TraceInit /\ [][TraceNext]_tvars
 
